@@ -1,6 +1,7 @@
 package main
 
 import (
+	"crypto/md5"
 	"io"
 	"fmt"
 	"strconv"
@@ -32,6 +33,7 @@ func checkC02(rep *Report, rng *Rng, tier string) {
 	dmodelOn = true
 	modelOn = true
 	probeNonUTF8Name(rep)
+	probeBigRootRecord(rep, "C02")
 	rep.Rule = "seeded histories of mutations over 1-3 collections (4 comparators) with Flush at arbitrary positions, collection creation/removal, evictions, and re-opens after which the history continues on the re-opened store; after EVERY step a fresh Store is opened on a copy of the current file image and its full contents (names, keys, values, priorities, totals) are compared with the reference state of the last successful Flush; non-trivial = at least one flush and 8 ops"
 	HistoryLoop(rep, rng, n, func(r *Rng, i int) (RunCfg, []Op, string) {
 		d, ops := genC02(r, i)
@@ -545,6 +547,58 @@ func checkC19(rep *Report, rng *Rng, tier string) {
 			if r.Chance(1, 40) {
 				out = append(out, Op{K: "copyfail"})
 			}
+			if r.Chance(1, 30) && o.Name != "" {
+				// a run with Flush inside it (LazySeq3): mutate, flush, a visit that drops the flushed items again, lookups
+				// that read them back at the offsets the flush gave them, a second round on top
+				key := o.Key
+				if len(key) == 0 || len(key) > 60 {
+					key = []byte("k")
+				}
+				nk := append(append([]byte{}, key...), byte('a'+r.Intn(26)))
+				vis := func() Op {
+					return Op{K: []string{"asc", "desc"}[r.Intn(2)], Name: o.Name, Key: []byte{byte(0xff * r.Intn(2))}, WV: r.Chance(1, 2), N: -1}
+				}
+				out = append(out, Op{K: "flush"}, Op{K: "reopen"},
+					Op{K: "set", Name: o.Name, Key: nk, Val: genVal(r, false), Prio: int32(r.U64() & 0x7fffffff)},
+					Op{K: "set", Name: o.Name, Key: key, Val: genVal(r, false), Prio: int32(r.U64() & 0x7fffffff)},
+					Op{K: "flush"}, vis(),
+					Op{K: "geti", Name: o.Name, Key: nk, WV: r.Chance(1, 2)},
+					Op{K: "geti", Name: o.Name, Key: key, WV: true},
+					Op{K: []string{"del", "set"}[r.Intn(2)], Name: o.Name, Key: nk, Val: genVal(r, false), Prio: int32(r.U64() & 0x7fffffff)},
+					Op{K: "flush"}, vis(),
+					Op{K: []string{"min", "max"}[r.Intn(2)], Name: o.Name, WV: true},
+					Op{K: "geti", Name: o.Name, Key: key, WV: r.Chance(1, 2)},
+					Op{K: "len", Name: o.Name})
+				opens++
+			}
+		}
+		if i%8 == 3 {
+			// a LARGE collection: every item loaded with its value by one scan of the re-opened store (over a hundred value
+			// loads through one handle), then key-only calls on the same handle, after evictions and on a second re-open
+			var nm string
+			for _, o := range out {
+				if o.K == "coll" {
+					nm = o.Name
+					break
+				}
+			}
+			if nm != "" {
+				big := []Op{}
+				for j := 0; j < 110+r.Intn(60); j++ {
+					big = append(big, Op{K: "set", Name: nm, Key: []byte(fmt.Sprintf("big-%04d", j*7%1000)), Val: genVal(r, j%9 == 0), Prio: int32(r.U64() & 0x7fffffff)})
+				}
+				k1, k2 := []byte("big-0007"), []byte("big-0497")
+				big = append(big, Op{K: "flush"}, Op{K: "reopen"},
+					Op{K: "asc", Name: nm, Key: []byte{}, WV: true, N: -1},
+					Op{K: "len", Name: nm}, Op{K: "exist", Name: nm, Key: k1}, Op{K: "min", Name: nm, WV: false},
+					Op{K: "geti", Name: nm, Key: k2, WV: false}, Op{K: "desc", Name: nm, Key: []byte{0xff}, WV: false, N: -1},
+					Op{K: "evict", Name: nm}, Op{K: "len", Name: nm}, Op{K: "max", Name: nm, WV: false},
+					Op{K: "set", Name: nm, Key: k1, Val: []byte("x"), Prio: 5}, Op{K: "del", Name: nm, Key: k2},
+					Op{K: "flush"}, Op{K: "reopen"},
+					Op{K: "desc", Name: nm, Key: []byte{0xff}, WV: true, N: -1}, Op{K: "len", Name: nm}, Op{K: "exist", Name: nm, Key: k1})
+				out = append(out, big...)
+				opens += 2
+			}
 		}
 		d := CfgDesc{Check: "C19", FileBacked: true, CmpCB: g.CmpMode == 1, Post: "lazyreads"}
 		if i%3 == 1 {
@@ -575,6 +629,9 @@ func checkC19(rep *Report, rng *Rng, tier string) {
 	rep.Extra["open_read_lists_compared_with_model"] = lazyOpenCompared
 	rep.Extra["mutation_read_lists_compared_with_model"] = lazyMutCompared
 	rep.Extra["calls_in_runs_after_reopen_compared_with_model"] = lazySeqCompared
+	rep.Extra["flushes_inside_runs_compared_with_model"] = lazySeqFlushes
+	rep.Extra["calls_after_a_flush_inside_runs_compared_with_model"] = lazySeqAfterFlush
+	rep.Extra["calls_reading_records_flushed_inside_the_run"] = lazySeqRereads
 }
 
 func genC02(r *Rng, i int) (CfgDesc, []Op) {
@@ -651,7 +708,7 @@ func genC06(r *Rng, i int) (CfgDesc, []Op) {
 	return d, ops
 }
 
-var lazyCompared, lazyOpenCompared, lazyMutCompared, lazySeqCompared int
+var lazyCompared, lazyOpenCompared, lazyMutCompared, lazySeqCompared, lazySeqFlushes, lazySeqAfterFlush, lazySeqRereads int
 
 func init() {
 	postOracles["lazyreads"] = func(cfg *RunCfg) {
@@ -711,16 +768,22 @@ func init() {
 				line = "len"
 			case "tot":
 				line = "tot"
+			case "flush":
+				// Store.Flush inside the run (LazySeq3): only once the run has its collection
+				if seqNamed {
+					line = "flush"
+					op.Name = seqName
+				}
 			}
 			rc, ok := w.H[0].Ref.Colls[op.Name]
-			if line == "" || !ok || (seqNamed && seqName != op.Name) || w.ChunkMem || len(seqLines) >= 12 {
+			if line == "" || !ok || (seqNamed && seqName != op.Name) || w.ChunkMem || len(seqLines) >= 14 {
 				seqOn = false
 				return nil
 			}
 			seqName, seqNamed = op.Name, true
 			seqLines = append(seqLines, line)
 			m := getModel()
-			if _, err := io.WriteString(m.in, fmt.Sprintf("seq2reads %d %s %d %s\n%s\n", rc.Cmp, hx([]byte(op.Name)), len(seqLines), hexFile(seqImg), strings.Join(seqLines, "\n"))); err != nil {
+			if _, err := io.WriteString(m.in, fmt.Sprintf("seq3reads %d %s %d %s\n%s\n", rc.Cmp, hx([]byte(op.Name)), len(seqLines), hexFile(seqImg), strings.Join(seqLines, "\n"))); err != nil {
 				seqOn = false
 				return nil
 			}
@@ -737,14 +800,38 @@ func init() {
 				}
 				outs = append(outs, l)
 			}
-			if len(outs) != len(seqLines) {
+			if len(outs) != len(seqLines)+1 {
 				seqOn = false
 				return nil
 			}
 			lazySeqCompared++
-			if exp := outs[len(outs)-1]; exp != got {
+			if line != "flush" {
+				for _, l := range seqLines {
+					if l == "flush" {
+						lazySeqAfterFlush++
+						break
+					}
+				}
+				for _, e := range w.LastEvents {
+					if e.Kind == 'R' && e.Off >= int64(len(seqImg)) {
+						lazySeqRereads++
+						break
+					}
+				}
+			}
+			if exp := outs[len(outs)-2]; exp != got {
 				return &Mismatch{Kind: "reads-vs-model", Expected: exp, Observed: got,
-					Note: fmt.Sprintf("ReadAt calls of call %d of a run of calls after re-opening vs the Coq model LazySeq2.srun_reads2 (run: %s)", len(seqLines), strings.Join(seqLines, "; "))}
+					Note: fmt.Sprintf("ReadAt calls of call %d of a run of calls after re-opening vs the Coq model LazySeq3.srun3 (run: %s)", len(seqLines), strings.Join(seqLines, "; "))}
+			}
+			if line == "flush" {
+				// the file the model predicts after the Flush of the run vs the file the implementation wrote
+				lazySeqFlushes++
+				img := w.File.Bytes()
+				sum := md5.Sum(img)
+				if gotf := fmt.Sprintf("file %d %x", len(img), sum); gotf != outs[len(outs)-1] {
+					return &Mismatch{Kind: "file-vs-model", Expected: outs[len(outs)-1], Observed: gotf,
+						Note: fmt.Sprintf("the file after the Flush inside a run of calls after re-opening vs LazySeq3.flush_trees (run: %s)", strings.Join(seqLines, "; "))}
+				}
 			}
 			return nil
 		}
@@ -758,7 +845,7 @@ func init() {
 						rl = append(rl, fmt.Sprintf("%d:%d", e.Off, e.Len))
 					}
 				}
-				if op.K == "reopen" && obs != "ok" {
+				if (op.K == "reopen" || op.K == "flush") && obs != "ok" {
 					seqOn = false
 				} else if m := seqStep(w, op, strings.Join(append([]string{"r"}, rl...), " ")); m != nil {
 					return m
